@@ -96,6 +96,40 @@ func runC11(cx *ctx) {
 		}
 	}
 	rec(nil)
+	// a refusal AFTER a lot of header material: recipients whose stanzas add up to several KiB (more than any
+	// buffer a writer may put in front of the destination: 4096, 8192, 65536) precede the one that is refused
+	for i := 0; i < cx.n(60, 600); i++ {
+		rr := r.Fork()
+		cx.ru.Do(func() *h.Case {
+			n := 2 + rr.Intn(5)
+			bad := 1 + rr.Intn(n-1) // never the first: something must precede it
+			failing := rr.Intn(2) == 0
+			var ps []*party
+			total := 0
+			for i := 0; i < n; i++ {
+				l := []string{"a"}
+				if i == bad && !failing {
+					l = h.Pick(rr, [][]string{{"b"}, {}, {"a", "b"}})
+				}
+				var st []*age.Stanza
+				for k := 1 + rr.Intn(3); k > 0; k-- {
+					g := greaseStanza(rr)
+					g.Body = rr.Bytes(h.Pick(rr, []int{1500, 3000, 4096, 6000, 9000, 40000}) + rr.Intn(50))
+					total += len(g.Body) * 4 / 3
+					st = append(st, g)
+				}
+				ps = append(ps, newCustom(st, l, true, i == bad && failing))
+			}
+			c := fencwCase("labels-large-header", rr, ps, nil, true, "ok", nil)
+			if len(c.Impl) >= 2 && c.Impl[:2] == "ok" && c.Oracle == "" {
+				c.Oracle = "Encrypt accepted a recipient list with a failing or incompatible recipient"
+			} else if c.Impl != "err acc=-" && c.Oracle == "" {
+				c.Oracle = "Encrypt refused the recipients but had already written to the destination: " + c.Impl
+			}
+			c.Note = fmt.Sprintf("%d recipients, about %d header bytes, refused one at %d (failing wrap: %v)", n, total, bad, failing)
+			return c
+		})
+	}
 	// native recipients (no labels) mixed with labelled custom ones and with scrypt
 	for i := 0; i < cx.n(100, 1000); i++ {
 		rr := r.Fork()
